@@ -1,21 +1,25 @@
 #!/usr/bin/env python3
-"""C06 detection demo range_open_gt: the open range N: of tagfocus/tagignore excludes its bound (>= became >).
+"""C06 detection demo keyed_regex_first_value: tagfocus=key=regexp looks only at the first value of a multi-valued label.
 
 Exact-text substitution on the current /repo/internal/driver/driver_focus.go; nothing under /repo is
 touched. Prints the path of a `go build -overlay` json:
-    ov=$(python3 /verif/demos/C06_range_open_gt.py)
+    ov=$(python3 /verif/demos/C06_keyed_regex_first_value.py)
     cd /repo && go test -overlay $ov -vet=off -count=1 ./...     # existing suite
     cd /verif && ./pmc check C06 --solo --extra $ov              # must report a VIOLATION
 """
 import json, os
 SRC = '/repo/internal/driver/driver_focus.go'
-OUT = '/tmp/c06-demo/range_open_gt'
+OUT = '/tmp/c06-demo/keyed_regex_first_value'
 SUBS = [
-    ("""				return su == unit && sv >= scaledValue
-			}
-		case ":" + match:""", """				return su == unit && sv > scaledValue
-			}
-		case ":" + match:"""),
+    ("""				for _, val := range vals {
+					if rx.MatchString(val) {
+						return true
+					}
+				}""", """				for _, val := range vals[:1] {
+					if rx.MatchString(val) {
+						return true
+					}
+				}"""),
 ]
 s = open(SRC).read()
 for old, new in SUBS:
